@@ -3,14 +3,14 @@ set -e
 . $MC/par.sh
 H=$VERIF/harness/c02
 TT=0; [ "$TIER" = thorough ] && TT=1
-CF="-DTIER_THOROUGH=$TT -std=c++17 -O2 -g1 -fsanitize=address -fno-omit-frame-pointer -I$REPO -I$MC -I$H"
+CF="-DTIER_THOROUGH=$TT -std=c++20 -O2 -g1 -fsanitize=address -fno-omit-frame-pointer -I$REPO -I$MC -I$H"
 # std_portable.h: vector::erase(first,last) calls a three-argument igris::move that the header may not
 # provide (it then cannot be instantiated at all); probe, and leave the operation out if so.
 cat > $BUILD/probe.cpp <<'EOP'
 #include <igris/container/std_portable.h>
 void f(igris::vector<int> &v) { v.erase(v.begin(), v.begin()); }
 EOP
-if g++ -std=c++17 -fsyntax-only -I$REPO $BUILD/probe.cpp 2>/dev/null; then TW=1; else TW=0; fi
+if g++ -std=c++20 -fsyntax-only -I$REPO $BUILD/probe.cpp 2>/dev/null; then TW=1; else TW=0; fi
 par g++ -c $CF $H/c02_main.cpp -o $BUILD/main.o
 par g++ -c $CF $H/c02_main_large.cpp -o $BUILD/main_large.o
 par g++ -c $CF -Wno-return-local-addr $H/c02_main_flat.cpp -o $BUILD/main_flat.o
@@ -22,11 +22,11 @@ par g++ -c $CF -Wno-return-local-addr $H/c02_shim.cpp -o $BUILD/shim.o
 par sh -c "g++ -c $CF -Wno-return-local-addr $H/c02_flatvec.cpp -o $BUILD/flatvec.o 2>$BUILD/flatvec.log || { rm -f $BUILD/flatvec.o; echo 'note: flat_map/flat_set do not compile over igris::vector; run flat_on_igris_vector skipped'; }"
 # second build of the vector TUs: the other compiler (argument evaluation order, folding) at -O2 and with
 # -DNDEBUG (an assert that carries a side effect vanishes); it re-runs a representative selection
-CFC="-DTIER_THOROUGH=$TT -DNDEBUG -std=c++17 -O2 -g1 -fsanitize=address -fno-omit-frame-pointer -I$REPO -I$MC -I$H"
+CFC="-DTIER_THOROUGH=$TT -DNDEBUG -std=c++20 -O2 -g1 -fsanitize=address -fno-omit-frame-pointer -I$REPO -I$MC -I$H"
 par clang++ -c $CFC $H/c02_main.cpp -o $BUILD/main_clang.o
 par clang++ -c $CFC $H/c02_main_large.cpp -o $BUILD/main_large_clang.o
 par clang++ -c $CFC -DTWIN_HAS_ERASE_RANGE=$TW $H/c02_twin.cpp -o $BUILD/twin_clang.o
-par g++ -std=c++17 -O2 -c -I$MC $MC/mc.cpp -o $BUILD/mc.o
+par g++ -std=c++20 -O2 -c -I$MC $MC/mc.cpp -o $BUILD/mc.o
 parwait
 par clang++ -fsanitize=address $BUILD/main_clang.o $BUILD/main_large_clang.o $BUILD/mc.o -o $BUILD/c02_main_clang
 par clang++ -fsanitize=address $BUILD/twin_clang.o $BUILD/mc.o -o $BUILD/c02_twin_clang
